@@ -1005,6 +1005,22 @@ func ruleO19(c *Ctx) {
 		}
 	}
 	c.check(n >= 2, "O19", "Exec|writers found", c.L.Pos(f.Pos()), fmt.Sprintf("%d output writes (flat and COFF expected)", n))
+	// … and every normal return: a successful run always leaves a freshly created output, even an
+	// empty one (a path that returns without creating it leaves the previous file's bytes in place)
+	rn := 0
+	for _, b := range f.Blocks {
+		for _, in := range b.Instrs {
+			if _, ok := in.(*ssa.Return); !ok {
+				continue
+			}
+			if b == f.Recover {
+				continue // the synthetic return taken after a recovered panic
+			}
+			rn++
+			c.check(openBlk.Dominates(b), "O19", fmt.Sprintf("Exec|return#%d after creation", rn), c.L.Pos(instrPos(in)),
+				"Exec can return normally without having created (truncated) the output file: exit status 0 with the old contents, or no file at all")
+		}
+	}
 }
 
 // exitsWith: the If ending b (or the next block) has a successor that calls os.Exit(code).
